@@ -913,6 +913,7 @@ func (m *Machine) chanSend(fr *frame, ch *Chan, v Value, pos token.Pos) {
 			}
 		}
 		ch.Buf = append(ch.Buf, copyVal(v))
+		m.syncAfter(fr)
 		return
 	}
 	s := &chanSend{v: copyVal(v), th: m.cur}
@@ -932,6 +933,7 @@ func (m *Machine) chanClose(fr *frame, ch *Chan, pos token.Pos) {
 		panic(targetPanic{msg: "close of closed channel", pos: m.posString(pos)})
 	}
 	ch.Closed = true
+	m.syncAfter(fr)
 }
 
 func (m *Machine) selectInstr(fr *frame, instr *ssa.Select) Value {
